@@ -33,6 +33,8 @@ def evaluate(mod, cases, workdir):
     kw = {}
     if hasattr(mod, 'SHARD_SIZE'):
         kw['shard_size'] = mod.SHARD_SIZE
+    if hasattr(mod, 'IMPORTS'):
+        kw['imports'] = mod.IMPORTS
     bad, nshards, secs = common.run_shards(mod.RUN_MODULE, terms, workdir, **kw)
     return bad, nshards, secs
 
